@@ -113,4 +113,7 @@ def _parse_payload(
         raise ConversionError("Could not parse raw payload", value=str(value)) from err
     if not payload.value:
         raise ConversionError("Raw payload must not be empty", value=str(value))
+    if not all(isinstance(octet, int) for octet in payload.value):
+        # DPTArray only checks the range of integers
+        raise ConversionError("Raw payload must consist of octets", value=str(value))
     return payload
